@@ -31,7 +31,7 @@ var (
 )
 
 // rawEnabled: whether context attributes are sometimes unparsed values (ldvalue.Raw).
-var rawEnabled = os.Getenv("VERIF_RAW") != "" // TODO flip once the model has raw values
+var rawEnabled = os.Getenv("VERIF_NO_RAW") == ""
 
 // Profile: generator weights (percentages) for one stream.
 type Profile struct {
